@@ -385,7 +385,7 @@ fn fn_props(s: &FnSk, public: bool, read_paths: &BTreeSet<String>, cfg: &Cfg) ->
     if has("ev_retire") || has("ev_retire_value") || has("ev_retire_node") {
         p.push("C03");
     }
-    if has("ev_retire_value") {
+    if has("ev_retire_value") || has("ev_retire_node") {
         p.push("C04");
     }
     if has("ev_lock") {
